@@ -210,7 +210,7 @@ class Patches:
 ACT = {0: ("K",), 1: ("L",), 2: ("LC",)}
 def actor_of(code): return ACT[code] if code < 3 else (("W", (code - 3) // 2) if (code - 3) % 2 == 0 else ("C", (code - 4) // 2))
 
-def run_impl(n, m, ab, table, nitems, schedule, tail_rounds=400, recycled=False):
+def run_impl(n, m, ab, table, nitems, schedule, tail_rounds=400, recycled=False, prelude=None, items=None):
     """returns (observations per step, schedule actually used, result)"""
     from coba.pipes.multiprocessing import Multiprocessor
     s = Sched()
@@ -220,10 +220,15 @@ def run_impl(n, m, ab, table, nitems, schedule, tail_rounds=400, recycled=False)
         try:
             mp = Multiprocessor(TableFilter(table), n, m); holder["mp"] = mp
             s.park(("K",))
+            if prelude is not None:      # an earlier call on the same Multiprocessor object (it may have failed)
+                try:
+                    for _ in mp.filter(list(prelude)): pass
+                except _Abort: raise
+                except Exception: pass
             def refilled():      # a lazy stream that hands out ONE buffer object, re-filled in place for every item
                 buf = [None]
                 for j in range(nitems): buf[0] = j; yield buf
-            gen = mp.filter(refilled() if recycled else list(range(nitems)))
+            gen = mp.filter(refilled() if recycled else list(items) if items is not None else list(range(nitems)))
             for y in gen:
                 ys.append(y)
                 if ab is not None and len(ys) == ab:
@@ -242,8 +247,8 @@ def run_impl(n, m, ab, table, nitems, schedule, tail_rounds=400, recycled=False)
         real_queue = M.spawn_context.Queue
         def q(maxsize=0):
             fq = real_queue(maxsize); made.append(fq)
-            if len(made) == 1: holder["inq"] = fq
-            elif len(made) == 2: holder["outq"] = fq
+            if len(made) % 2 == 1: holder["inq"] = fq
+            else: holder["outq"] = fq
             return fq
         M.spawn_context.Queue = q
         CtlThread.sched = s
@@ -442,6 +447,44 @@ def inproc(ctx, k):
             except Exception as e: got = []; res = type(e).__name__
             if res is not None or got != exp:
                 ctx.fail(["payload", layer, "first-none" if items[0] is None else "falsy"], "%s(filter, 1, 0).filter(%r) yielded %r%s; every item has one output" % (layer, items, got, " then raised " + res if res else ""), desc)
+    # one Multiprocessor object used again after a call on it failed: the new call stands on its own (real worker processes)
+    REUSE = r"""
+import sys, json
+sys.path.insert(0, %(repo)r); sys.path.insert(0, %(verif)r)
+import warnings; warnings.simplefilter("ignore")
+from harness.c08 import TableFilter
+if __name__ == "__main__":
+    from coba.pipes.multiprocessing import Multiprocessor
+    table = [([0], False, None), ([1], True, "ValueError"), ([2], False, None), ([3], False, None)]
+    for n, m in ((2, 0), (2, 1), (1, 1)):
+        mp = Multiprocessor(TableFilter(table), n, m)
+        try: first = ["returned", sorted(mp.filter([0, 1, 2, 3]))]
+        except Exception as e: first = ["raised", type(e).__name__]
+        try: second = ["returned", sorted(mp.filter([0, 2, 3]))]
+        except Exception as e: second = ["raised", type(e).__name__]
+        print(json.dumps([n, m, first, second]), flush=True)
+"""
+    work = os.path.join(VERIF, ".work"); os.makedirs(work, exist_ok=True)
+    sf = os.path.join(work, "c08_reuse_%d.py" % os.getpid()); open(sf, "w").write(REUSE % dict(repo=REPO, verif=VERIF))
+    try:
+        import signal
+        pr = subprocess.Popen([sys.executable, "-W", "ignore", sf], stdout=subprocess.PIPE, stderr=subprocess.PIPE, text=True, env=dict(os.environ, PYTHONHASHSEED="0"), start_new_session=True)
+        try: so, se = pr.communicate(timeout=90); hung = False
+        except subprocess.TimeoutExpired:
+            try: os.killpg(pr.pid, signal.SIGKILL)
+            except OSError: pass
+            so, se = pr.communicate(); hung = True
+        seen = [json.loads(l) for l in so.splitlines() if l.startswith("[")]
+        for k, (n, m) in enumerate(((2, 0), (2, 1), (1, 1))):
+            desc = dict(n=n, m=m, earlier_call="items 0..3 (item 1 raises ValueError)", this_call="items 0, 2, 3", real_processes=True)
+            ctx.count("reuse", repr(desc), True)
+            if k >= len(seen): ctx.fail(["reuse", "hang" if hung else "crashed"], "the run with a re-used Multiprocessor object did not finish: %s" % se[-200:], desc); break
+            _, _, first, second = seen[k]
+            if second != ["returned", [0, 2, 3]]:
+                ctx.fail(["reuse", second[0]], "after a call that ended as %r, a second call on the same object over healthy items ended as %r (expected to return 0, 2, 3)" % (first, second), desc)
+    finally:
+        try: os.remove(sf)
+        except OSError: pass
     # an output that is None is indistinguishable from the pill of the output queue
     table = [([0], False, None), ([None, 1], False, None), ([2], False, None)]
     desc = dict(n=2, m=0, items=[[o, r, kd] for o, r, kd in table], schedule="fair")
